@@ -622,6 +622,6 @@ def vSerialized (s : Vars) : List (Cps × Cps) :=
   s.seq.filterMap (fun x => match x with | .var n v => some (normalize n, v.css) | _ => none)
 
 /-- what the API reports: `[(k, getVariableValue(k)) for k in keys()]` -/
-def vReported (s : Vars) : List (Cps × Cps) := s.vars.map (fun e => (e.1, e.2.css))
+def vReported (s : Vars) : List (Cps × Cps) := (vKeys s).map (fun k => (k, vGet s k))
 
 end CssVerif.Decl
